@@ -60,7 +60,7 @@ def take_snapshot(bld, tag, args, timeout=120):
 
 def load_module(bld, names):
     """parse (and cache as pickle) the IR modules `names` of a build into one Module"""
-    key = hashlib.sha1(('v2|' + '|'.join(names)).encode()).hexdigest()[:10]      # v2: parser records 'inbounds' on getelementptr
+    key = hashlib.sha1(('v3|' + '|'.join(names)).encode()).hexdigest()[:10]      # v2: parser records 'inbounds' on getelementptr; v3: x86_fp80 constants are parsed
     pk = os.path.join(bld['dir'], 'mod-%s.pickle' % key)
     if os.path.exists(pk):
         try:
